@@ -633,6 +633,11 @@ pub fn generate(seed: u64, scale: usize, which: &str) -> Cases {
             let n = [48usize, 64, 96][i % 3];
             o.push("big-network-success-rate", big_store_case(&mut rr, n, 8));
         }
+        // the upper end of the property's range, in the thorough tier only
+        if scale >= 4 {
+            let mut rr = r.fork();
+            o.push("big-network-success-rate-300", big_store_case(&mut rr, 300, 12));
+        }
     }
     o
 }
